@@ -439,5 +439,14 @@ class C17(BridgeProp):
     def replay_phase(self, ctx):
         return bridge_replay(ctx, {"running-flag", "listening-ports", "ports-being-released", "start-raised"})
 
+    def extra_coverage(self, ctx):
+        # unbounded in time (for three ports): the life-cycle design satisfies RunningIffListening / NothingLeftBehind in EVERY
+        # reachable state, by an inductive invariant discharged with Apalache (spec/apalache/BridgeLife.tla)
+        from .. import tlc
+        r = tlc.apalache_inductive(str(tlc.SPEC / "apalache" / "BridgeLife.tla"), "Init", "IndInit", "IndInv",
+                                   ["RunningIffListening", "NothingLeftBehind"])
+        print(f"   Apalache: inductive invariant of the bridge life cycle discharged ({len(r['obligations'])} obligations, {r['wall_s']} s)", flush=True)
+        return {"inductive_invariant": r}
+
 
 P05, P06, P07, P17 = C05(), C06(), C07(), C17()
